@@ -66,6 +66,11 @@ def check_case(case):
     require(s["n_nodes"] == nt + nu, "all_samples_conquered", "n_nodes %d != labeled %d + unlabeled %d" % (s["n_nodes"], nt, nu))
     c01.check_forest(r, case)
     c02.check_prototypes(r, case)
+    # "carries the true label of the prototype at the root": the semi-supervised competition also writes the propagated
+    # label into Node.label of every conquered sample (labeled or not), so both label fields must agree afterwards
+    for i in range(nt + nu):
+        if s["pred"][i] != -1:
+            require(s["label"][i] == s["predicted_label"][i], "conquered_sample_carries_root_label", lambda: "node %d: label %r but propagated label %r (root's true label)" % (i, s["label"][i], s["predicted_label"][i]))
     through = any(p >= nt for p in s["pred"] if p != -1)
     cl = ["mode_" + case["mode"], "nu=%d" % min(nu, 3)]
     if case.get("pkind") == "bridge":
